@@ -443,3 +443,55 @@ Proof.
 Qed.
 
 End SaveLoad.
+
+(* ============================================================================================================
+   C06 / C01 over whole histories: every callback delivered anywhere in any in-contract history sees its own id and
+   an isActive() table that names exactly one state (the one whose enter() ran last) or none. *)
+Section Views.
+Variable P : Type.
+Variable cfg : config.
+Variable orc : oracle P.
+Hypothesis Hcfg : wf_cfg cfg.
+Hypothesis Hwf : wf_oracle P cfg orc.
+
+Let HPI : plan_inv_ok P cfg (PIc P cfg) := PIc_ok P cfg (proj1 (proj2 Hcfg)).
+
+Definition view_ok (e : event P) : Prop :=
+  match e with
+  | EvCb _ w r m v => v_id P v = id_of w /\ exists a, v_act P v = act_bits cfg a
+  | _ => True
+  end.
+
+Lemma ev_ok_view_ok a Q e : ev_ok P cfg a Q e -> view_ok e.
+Proof. destruct e; cbn; auto. intros (_ & Hi & Ha). split; [exact Hi|]. exists a. exact Ha. Qed.
+
+Lemma deliv_view_ok w m a l : deliv P cfg w m a l -> Forall view_ok l.
+Proof. intros [H _]. eapply Forall_impl; [|exact H]. intro e. apply ev_ok_view_ok. Qed.
+
+Lemma change_view_ok a a' l : change P cfg a a' l -> Forall view_ok l.
+Proof.
+  intros C. destruct C as [_|l1 l2 _ _ _ D1 D2|l _ _ D|l1 l2 _ _ D1 D2|l1 l2 _ _ D1 D2];
+    [constructor| | | | ]; try (apply Forall_app; split); eauto using deliv_view_ok.
+Qed.
+
+Lemma life_shape_view_ok a a' l : life_shape P cfg a a' l -> Forall view_ok l.
+Proof.
+  intros (lc & lq & -> & Q & C). apply Forall_app. split; [exact (change_view_ok _ _ _ C)|].
+  eapply Forall_impl; [|exact Q]. intro e. apply ev_ok_view_ok.
+Qed.
+
+Lemma life_chain_view_ok a0 a l : life_chain P cfg a0 a l -> Forall view_ok l.
+Proof.
+  induction 1 as [|a a1 a2 l1 l2 _ IH S]; [constructor|].
+  apply Forall_app. split; [exact (life_shape_view_ok _ _ _ S)|exact IH].
+Qed.
+
+Theorem every_view_of_every_history lg ops :
+  ops_ok P cfg orc (construct P cfg orc lg) ops ->
+  Forall view_ok (tr P (run P cfg orc lg ops)).
+Proof.
+  intro Hok. pose proof (run_life P cfg orc (PIc P cfg) HPI Hwf Hcfg lg ops Hok) as H. cbv zeta in H.
+  destruct H as [_ C]. exact (life_chain_view_ok _ _ _ C).
+Qed.
+
+End Views.
